@@ -1,1 +1,15 @@
-fn main() {}
+mod c04;
+mod dict;
+mod flight;
+mod model;
+mod rt;
+fn main() {
+    let ctx = vcore::Ctx::from_args();
+    match ctx.prop.as_str() {
+        "C04" => c04::run(&ctx),
+        other => {
+            eprintln!("MACHINERY: vk-ipc does not serve property {other:?}");
+            std::process::exit(2)
+        }
+    }
+}
